@@ -2,30 +2,20 @@ package main
 
 import (
 	"fmt"
-	"sort"
+	"os"
+
 	"upfcheck/internal/core"
+	"upfcheck/internal/rules"
 )
 
 func main() {
-	p, err := core.Load("/repo")
+	repo := "/repo"
+	if len(os.Args) > 1 {
+		repo = os.Args[1]
+	}
+	p, err := core.Load(repo)
 	if err != nil {
 		panic(err)
 	}
-	cl := p.GoroutineClasses()
-	ops := p.ChanOps()
-	alias := p.ChanAlias(ops)
-	for _, o := range ops {
-		id := o.Chan
-		if a, ok := alias[id]; ok {
-			id = a
-		}
-		cs := core.ClassesOf(cl, o.Fn)
-		fmt.Printf("%-6s %-60s blocking=%-5v multi=%-5v cap=%-4d %-50s %v %s\n", o.Kind, id, o.Blocking, o.Multi, o.Cap, core.FnName(o.Fn), cs, p.Pos(o.Instr.Pos()))
-	}
-	var names []string
-	for n := range cl {
-		names = append(names, n)
-	}
-	sort.Strings(names)
-	fmt.Println(names)
+	rules.DumpCarried(p, func(s string) { fmt.Println(s) })
 }
